@@ -397,4 +397,140 @@ def threadArgs (s : TState) (t : Nat) : Option (List Int) :=
   | some th => (s.heap[th.slice]?).map (·.1)
   | none => none
 
+/-! ### Thread trees: who started whom, who has returned, under which context each runs
+
+Script threads form a TREE: the main program (thread 0) starts threads with `spawn(f,…)`,
+`f.spawn(…)` or `go f(…)`, and every spawned function may start further threads.  Each
+thread's code runs under a Go `context.Context`; every blocking channel operation is a
+`select` over the channel and that context's `Done()`.
+
+A context is represented by the list of *cancel scopes* it lies in (scope 0 = the context
+the host handed to the run); it is done iff one of its scopes has been cancelled.  In the
+code as it is (`cloneCallAsync` → `NewThread(clone.initContext(ctx), …)` →
+`callFuncAdapter.Call(ctx)` → `callFunc(ctx, …)`) the context of a spawned thread is derived
+from the spawner's by `context.WithValue` only: it lies in exactly the spawner's scopes, and
+a function returning cancels nothing.  `ownScope = true` is the variant in which every spawned
+call runs in a cancel scope of its own that is cancelled when the call returns; it exists
+only so that the theorems can show that the context is part of what delivery depends on. -/
+
+structure Net where
+  chans : List Chan := []
+  parent : List Nat := [0]            -- parent[t] = the thread that started t (thread 0 = the main program)
+  ctx : List (List Nat) := [[0]]      -- ctx[t] = the cancel scopes thread t's code runs under
+  returned : List Nat := []           -- the `returned` flags: threads whose call has ended
+  cancelled : List Nat := []          -- cancel scopes cancelled so far
+  nscopes : Nat := 1
+  deriving Repr, DecidableEq
+
+def ninit (caps : List Nat) : Net := { chans := caps.map init }
+
+inductive NOp where
+  | chan (k : Nat) (o : Op)      -- the thread(s) named in `o` act on channel `k`
+  | spawn (p : Nat)              -- thread `p` starts a new thread (any spawn form)
+  | ret (t : Nat)                -- thread `t`'s function returns
+  | wait (w t : Nat)             -- thread `w` waits for thread `t` (`t.wait()`)
+  | abort (t : Nat)              -- thread `t` finds its context done: its pending send/receive/range
+                                 -- fails with the context's error and the thread ends
+  | cancel                       -- the host cancels the run's context
+  deriving Repr, DecidableEq
+
+inductive NObs where
+  | chan (ob : Obs)
+  | spawned (t : Nat)
+  | unit
+  | aborted
+  deriving Repr, DecidableEq
+
+/-- the threads that act in a channel operation -/
+def actors : Op → List Nat
+  | .send t _ => [t]
+  | .recv t => [t]
+  | .close t => [t]
+  | .next t => [t]
+  | .entry t => [t]
+  | .peek t => [t]
+  | .handoff s r _ _ => [s, r]
+
+def isReturned (s : Net) (t : Nat) : Bool := s.returned.contains t
+
+/-- thread `t` exists and its call has not ended -/
+def live (s : Net) (t : Nat) : Bool := decide (t < s.ctx.length) && !isReturned s t
+
+def ctxOf (s : Net) (t : Nat) : List Nat := s.ctx.getD t []
+
+/-- `ctx.Done()` of thread `t` is ready -/
+def ctxDone (s : Net) (t : Nat) : Bool := (ctxOf s t).any (fun sc => s.cancelled.contains sc)
+
+def nstepWith (ownScope : Bool) (s : Net) : NOp → Option (Net × NObs)
+  | .chan k o =>
+    if (actors o).all (live s) then
+      match s.chans[k]? with
+      | some c =>
+        match step c o with
+        | some (c', ob) => some ({ s with chans := s.chans.set k c' }, .chan ob)
+        | none => none
+      | none => none
+    else none
+  | .spawn p =>
+    if live s p then
+      if ownScope then
+        some ({ s with parent := s.parent ++ [p], ctx := s.ctx ++ [ctxOf s p ++ [s.nscopes]],
+                       nscopes := s.nscopes + 1 }, .spawned s.ctx.length)
+      else
+        -- the code as it is: the child's context lies in exactly the spawner's scopes
+        some ({ s with parent := s.parent ++ [p], ctx := s.ctx ++ [ctxOf s p] }, .spawned s.ctx.length)
+    else none
+  | .ret t =>
+    if t != 0 && live s t then
+      if ownScope then
+        some ({ s with returned := s.returned ++ [t],
+                       cancelled := s.cancelled ++ [(ctxOf s t).getLastD 0] }, .unit)
+      else
+        -- the code as it is: a return ends the thread and touches no context
+        some ({ s with returned := s.returned ++ [t] }, .unit)
+    else none
+  | .wait w t =>
+    if live s w && isReturned s t then some (s, .unit) else none
+  | .abort t =>
+    if live s t && ctxDone s t then some ({ s with returned := s.returned ++ [t] }, .aborted) else none
+  | .cancel => some ({ s with cancelled := s.cancelled ++ [0] }, .unit)
+
+/-- **Impl** of the thread tree: the code as it is -/
+def nstep : Net → NOp → Option (Net × NObs) := nstepWith false
+
+def nrunWith (ownScope : Bool) (s : Net) : List NOp → Option Net
+  | [] => some s
+  | o :: os =>
+    match nstepWith ownScope s o with
+    | some (s', _) => nrunWith ownScope s' os
+    | none => none
+
+def nrun : Net → List NOp → Option Net := nrunWith false
+
+def ntrace (ownScope : Bool) (s : Net) : List NOp → List (Option NObs) × Net
+  | [] => ([], s)
+  | o :: os =>
+    match nstepWith ownScope s o with
+    | some (s', ob) => let (r, sf) := ntrace ownScope s' os; (some ob :: r, sf)
+    | none => let (r, sf) := ntrace ownScope s os; (none :: r, sf)
+
+/-- the operations of a schedule that act on channel `k` -/
+def chanOpsOf (k : Nat) : List NOp → List Op
+  | [] => []
+  | .chan k' o :: os => if k' = k then o :: chanOpsOf k os else chanOpsOf k os
+  | _ :: os => chanOpsOf k os
+
+/-- does the action `o` involve thread `p` (as actor, spawner, the one returning, waiter or waited-for)? -/
+def involves (p : Nat) : NOp → Bool
+  | .chan _ o => (actors o).contains p
+  | .spawn q => q == p
+  | .ret t => t == p
+  | .wait w t => w == p || t == p
+  | .abort t => t == p
+  | .cancel => false
+
+/-- **Spec** of the tree (what the property demands): a thread's channel operation is cut
+    short only when the run itself has been cancelled. -/
+def runCancelled (s : Net) : Bool := s.cancelled.contains 0
+
 end Risor.C10
